@@ -19,6 +19,7 @@ import (
 	"sort"
 	"strings"
 	"sync"
+	"sync/atomic"
 	"time"
 
 	"github.com/mgtv-tech/redis-GunYu/config"
@@ -126,6 +127,36 @@ func (p *pump) close() {
 	p.wait.Close(nil)
 }
 
+// closingReader is the byte source of a snapshot writer.  When armed it closes the writer at the one instant no call from
+// outside can hit: after the source has handed over the LAST bytes of the snapshot and before the writer has stored them
+// (the harness owns the byte source, so the schedule is forced, not hoped for).
+type closingReader struct {
+	inner  io.Reader
+	size   int64
+	total  int64
+	armed  atomic.Bool
+	fired  atomic.Bool
+	closer func()
+}
+
+func (c *closingReader) Read(p []byte) (int, error) {
+	n, err := c.inner.Read(p)
+	c.total += int64(n)
+	if n > 0 && c.total == c.size && c.armed.Load() && c.closer != nil {
+		c.fired.Store(true)
+		reached, gate := make(chan struct{}), make(chan struct{})
+		closeReached.Store(&reached)
+		closeGate.Store(&gate)
+		go c.closer()
+		select {
+		case <-reached: // the writer is marked closed and stands before its completeness decision
+		case <-time.After(2 * time.Second):
+		}
+		defer close(gate)
+	}
+	return n, err
+}
+
 type snapM struct {
 	l, s, got int64
 	done      bool
@@ -152,6 +183,7 @@ type run struct {
 	hist    int    // history of the content being written
 	label   string // run id the channel is labelled with
 	wl, wr  int64
+	snapCR  *closingReader
 	snap    *snapM
 	snapW   syncer.RdbChannelWriter
 	snapF   *hx.FeedReader
@@ -388,6 +420,19 @@ func (x *run) stepSnap(mayAbort bool) {
 		if r.Chance(50) && n > 3 {
 			n = 3
 		}
+		if mayAbort && x.snap.got+n == x.snap.s && r.Chance(20) && x.snapCR != nil {
+			// the writer is closed between receiving the last bytes and storing them: the snapshot is not complete
+			x.snapCR.armed.Store(true)
+			x.snapF.Feed(x.snap.data[x.snap.got : x.snap.got+n])
+			x.snapW.Wait(nil2())
+			x.snapF.CloseWith(io.EOF)
+			if !x.snapCR.fired.Load() {
+				hx.Fatal("the snapshot writer ended without reading its last bytes")
+			}
+			x.op(map[string]interface{}{"op": "snapabort", "at": "lastchunk"})
+			x.snap = nil
+			return
+		}
 		x.snapF.Feed(x.snap.data[x.snap.got : x.snap.got+n])
 		x.snap.got += n
 		if x.snap.got == x.snap.s {
@@ -555,10 +600,13 @@ func (x *run) newSnapAt(fl, fs int64) {
 	}
 	x.hist++
 	f := hx.NewFeedReader()
-	w, err := x.ch.NewRdbWriter(f, l, s)
+	cr := &closingReader{inner: f, size: s}
+	w, err := x.ch.NewRdbWriter(cr, l, s)
 	if err != nil {
 		hx.Fatal("NewRdbWriter: %v", err)
 	}
+	cr.closer = func() { w.Close() }
+	x.snapCR = cr
 	w.Start()
 	x.snapW, x.snapF = w, f
 	x.snap = &snapM{l: l, s: s, done: s == 0, data: snapData(x.hist, l, s)}
@@ -575,10 +623,27 @@ var freezeMu sync.Mutex
 var freezeSrc string
 var freezeEvery int
 
+// closeGate: a snapshot writer that is being closed by a closingReader waits at its "rdb.close" point (before it decides
+// whether the snapshot is complete) until the reader has handed the last bytes to the writer's pump
+var closeGate atomic.Pointer[chan struct{}]
+var closeReached atomic.Pointer[chan struct{}]
+
 func installFreeze() {
 	verifhook.SetPoint(func(name string, args ...interface{}) {
 		if name != "store.fs" {
 			return
+		}
+		if len(args) > 0 && fmt.Sprint(args[0]) == "rdb.close" {
+			if r := closeReached.Swap(nil); r != nil {
+				close(*r)
+				if g := closeGate.Swap(nil); g != nil {
+					select {
+					case <-*g:
+					case <-time.After(2 * time.Second):
+					}
+					time.Sleep(300 * time.Microsecond) // the pump accounts / refuses the bytes it was just given
+				}
+			}
 		}
 		freezeMu.Lock()
 		defer freezeMu.Unlock()
@@ -623,9 +688,9 @@ func main() {
 		if ctr, err = hx.NewTrace(*crash); err != nil {
 			hx.Fatal("%v", err)
 		}
-		installFreeze()
 		freezeEvery = *every
 	}
+	installFreeze()
 	if *work == "" {
 		hx.Fatal("-work is required")
 	}
